@@ -34,6 +34,19 @@ def gen_overlapping(g, rng, tier, n):
         g.next_id = 1
         mode = None if k % 3 == 0 else rng.choice(["disjoint", "touch"])
         t = ov_tree(g, rng, rng.choice([0, 1, 1, 2, 2]), mode)
+        if rng.random() < 0.06:
+            # a union / intersection / filter / buffer ABOVE a complement or difference: the recorded
+            # finding KF-OVCLIP-C16 (signature OVC) — kept in the stream so that it stays visible
+            other = ov_tree(g, rng, rng.choice([0, 1]), mode)
+            j = rng.random()
+            if j < 0.4:
+                t = {"op": "or", "l": t, "r": other}
+            elif j < 0.7:
+                t = {"op": "and", "l": t, "r": other}
+            elif j < 0.85:
+                t = {"op": "filt", "s": t, "f": g.filt(1, fields=False)}
+            else:
+                t = {"op": "buf", "s": t, "before": rng.choice([0, 1, 2]), "after": rng.choice([0, 1, 2])}
         pts = sorted({x for ev in X.all_events(t) for x in ev[:2] if x is not None} | {0})
         cand = set()
         for x in pts:
@@ -226,7 +239,7 @@ def _kind_family():
 
 
 CHECKS = {
-    "C16": Check("C16", [ExprFamily("C16", "o", "oracle_C16", {"D1": "o_noD1", "D2": "o_noD2", "D3": "o_noD3"}, gen_overlapping, 3000, 40000)], ASSUME),
+    "C16": Check("C16", [ExprFamily("C16", "o", "oracle_C16", {"D1": "o_noD1", "D2": "o_noD2", "D3": "o_noD3", "OVC": "o_noOVC"}, gen_overlapping, 3000, 40000)], ASSUME),
     "C17": Check("C17", [
         ExprFamily("C17", "s", "oracle_events_strong", {"D1": "c_noD1", "D2": "c_noD2", "D3": "c_noD3"}, gen_transforms, 2000, 30000, name="buffer-slices"),
         ExprFamily("C17", "f", "oracle_mw", {}, gen_mw, 2000, 30000, name="merge_within-fetches"),
